@@ -209,6 +209,13 @@ def run(ctx) -> None:
                 if in_handler:
                     ctx.ok("R4", what)
                 else:
+                    wider = _diff_only_raise_condition(ctx, fn, s.node, eng) if fq == diff_fq else None
+                    if wider is None:
+                        ctx.observe(f"{fq}: condition of the diff-only raise at L{s.node.lineno} not decided (shape not foldable); the finding is keyed by the site only")
+                    elif wider:
+                        ctx.bad("R4", f"{fq}: the diff-only NoPatternMatch is raised although no pattern of the file changes or the diff is not empty",
+                                f"`{unparse(s.node)}` at L{s.node.lineno} fires for {wider[0]}: --dry reports an error in more cases than `diff is empty and a pattern renders differently`",
+                                loc=fn.loc(s.node), witness={"cases": wider[:4]})
                     ctx.bad("R4", f"{fq}: NoPatternMatch raised on the diff path only",
                             f"`{unparse(s.node)}` at L{s.node.lineno} has no counterpart on the write path "
                             f"({write_fq}): --dry can report an error for a project the real run rewrites",
@@ -219,3 +226,68 @@ def run(ctx) -> None:
         ctx.check("R4", len(shared) == 2, f"{eng}: diff and write paths share rfd_from_content and iter_path_patterns_items",
                   f"{eng}: diff and write paths do not share the validating helpers",
                   f"shared helpers: {shared}", loc=dfn.loc())
+
+
+def _diff_only_raise_condition(ctx, fn, raise_node: ast.AST, eng: str) -> T.Optional[T.List[str]]:
+    """Decide when the diff-only raise fires, by folding the loop body of `diff` for 0..2 patterns x changed/unchanged
+    rendering x empty/non-empty diff.  Returns the cases in which it fires outside `diff empty and some pattern changes`
+    (the recorded finding), [] if none, None if the shape cannot be folded."""
+    import types
+    from sa.model import CannotFold
+    prog = ctx.prog
+    loops = [st for st in fn.node.body if isinstance(st, ast.For) and any(sub is raise_node for sub in ast.walk(st))]
+    if len(loops) != 1:
+        return None
+    body = loops[0].body
+    guard = [st for st in body if isinstance(st, ast.If) and any(sub is raise_node for sub in ast.walk(st))]
+    if len(guard) != 1 or not any(sub is raise_node for st in guard[0].body for sub in ast.walk(st)):
+        return None
+    gi = body.index(guard[0])
+    need = {n.id for n in ast.walk(guard[0].test) if isinstance(n, ast.Name)}
+    chosen: T.List[ast.stmt] = []
+    for st in reversed(body[:gi]):
+        binds = {n.id for n in ast.walk(st) if isinstance(n, ast.Name) and isinstance(n.ctx, ast.Store)}
+        if isinstance(st, (ast.Assign, ast.AnnAssign, ast.AugAssign, ast.For, ast.If)) and binds & need:
+            chosen.insert(0, st)
+            need |= _loads(st)
+    vmod = "v2version" if eng == "v2rewrite" else "v1version"
+    wider: T.List[str] = []
+    pat_name = unparse(loops[0].target.elts[1]) if isinstance(loops[0].target, ast.Tuple) and len(loops[0].target.elts) == 2 else None
+    if pat_name is None:
+        return None
+    try:
+        for k in range(3):
+            for mask in range(2 ** k):
+                changed = [bool(mask >> i & 1) for i in range(k)]
+                for lines in ([], ["-old", "+new"]):
+                    def fmt(f, node, changed=changed):
+                        vinfo, raw = f(node.args[0]), f(node.args[1])
+                        i = int(raw[1:])
+                        return f"{raw}@{vinfo}" if changed[i] else f"{raw}@same"
+                    env: T.Dict[str, T.Any] = {
+                        "old_vinfo": "OLD", "new_vinfo": "NEW",
+                        pat_name: [types.SimpleNamespace(raw_pattern=f"p{i}") for i in range(k)],
+                        "__stubs__": {f"{vmod}.format_version": fmt, "rewrite.diff_lines": lambda f, node, lines=lines: list(lines)},
+                    }
+                    prog._propagate(fn.module, chosen, env, fn.fq)
+                    fires = bool(prog.fold(fn.module, guard[0].test, env))
+                    recorded = (not lines) and any(changed)
+                    if fires and not recorded:
+                        wider.append(f"{k} pattern(s), rendering changes: {changed}, diff {'empty' if not lines else 'not empty'}")
+    except (CannotFold, KeyError, IndexError, ValueError, TypeError, AttributeError):
+        return None
+    return wider
+
+
+def _loads(root: ast.AST) -> T.Set[str]:
+    """Names read by `root`, not counting the arguments of the abstracted `rewrite.diff_lines(...)` call."""
+    out: T.Set[str] = set()
+    stack = [root]
+    while stack:
+        n = stack.pop()
+        if isinstance(n, ast.Call) and unparse(n.func) == "rewrite.diff_lines":
+            continue
+        if isinstance(n, ast.Name) and isinstance(n.ctx, ast.Load):
+            out.add(n.id)
+        stack.extend(ast.iter_child_nodes(n))
+    return out
